@@ -8,6 +8,7 @@
  *   x render <style> <decor> <forest> <hex>   the same, <hex> = text of <forest> by the reference writer
  *   x open                            open(file)
  *   x read [log]                      read(target[, logger of the driver])
+ *   x expect <forest>                 what the next read from the start of the file has to deliver (model driver only)
  *   x unlink                          remove the file (reset of a parser that has read from it fails then)
  *   x stat                            return code of the last read (compared with the model)
  *   x reset                           reset()
@@ -230,6 +231,10 @@ int main(void)
 			write_file(d, dl);
 			free(d);
 			printf("R ok len=%zu\n", dl);
+		}
+		else if (!strcmp(op, "expect") && drv_nw == 3) {
+			/* the forest the next read has to deliver (spec side only) */
+			printf("R ok\n");
 		}
 		else if (!strcmp(op, "unlink") && drv_nw == 2) {
 			/* the file disappears behind the back of the parser object (an open stream keeps its content) */
